@@ -27,6 +27,7 @@ def dispatch (f : List String) : String :=
   | ["s.parseall", a, n, p] => toHex (parseAll specParse (decText a) n.toNat! (decText p).reverse 14695981039346656037).toNat
   | ["m.num", op, a, b] => mNum op a b
   | ["s.num", op, a, b] => sNum op a b
+  | ["l.num", op, a, b] => lNum op a b
   | ["m.numnew", u, d] => mNumNew u d
   | ["s.numnew", u, d] => sNumNew u d
   | ["m.numstr", a] => mNumStr a
